@@ -147,3 +147,23 @@ func NewDecoder(r io.Reader) *cbor.Decoder {
 func NewDecoderRPC(r io.Reader) *cbor.Decoder {
 	return decModeRPC.NewDecoder(r)
 }
+
+// fullReader is a reader which fills the passed buffer (or hits an error) on every read.
+type fullReader struct {
+	r io.Reader
+}
+
+func (fr fullReader) Read(p []byte) (int, error) {
+	n, err := io.ReadFull(fr.r, p)
+	if err == io.ErrUnexpectedEOF {
+		err = io.EOF
+	}
+	return n, err
+}
+
+// NewFullReader wraps a reader of a bounded stream such that every read fills the passed buffer
+// unless the end of the stream (or an error) is hit. Stream decoders reading from it need a
+// number of reads that is logarithmic in the size of an item instead of one per fragment.
+func NewFullReader(r io.Reader) io.Reader {
+	return fullReader{r}
+}
